@@ -248,3 +248,54 @@ func ZZ_C07_SlowDial() {
 	verifAssert(io.conns[0].closes == 1, "every socket that was opened is closed exactly once - also one whose dial outlasted its session")
 	verifCover("slow-dial")
 }
+
+// Activity keeps a session alive, measured from its LAST packet: the session
+// starts at an arbitrary offset from the sweeper's ticks, gets a second packet
+// (from the client or from the remote side) an arbitrary moment later, and is
+// looked at after an arbitrary further wait - all three symbolic. As long as
+// less than the idle timeout has passed since that second packet the session is
+// still there with its socket open; one sweep interval after the timeout it is
+// gone.
+//
+//verif:harness kind=api replay=native+sched unwind=400 preempt=0 bound=offset<1s,gap<=2s,wait<=12s(all-symbolic),second-packet:client-or-remote
+func ZZ_C07_KeptWhileActive() {
+	io := &zzUDPIO{allow: map[string]bool{"t:1": true}, in: make(chan *protocol.UDPMessage, 8)}
+	m := newUDPSessionManager(io, &zzUDPLog{}, zzTimeout)
+	done := make(chan struct{})
+	go func() {
+		m.Run()
+		close(done)
+	}()
+	verifQuiesce()
+	verifAdvance(verifInt64("offset", 0, int64(time.Second)-1))
+	verifQuiesce()
+	io.curSess = 1
+	io.in <- zzDgram(1, "t:1", 0)
+	verifQuiesce()
+	verifAssert(len(io.conns) == 1, "the session is open")
+	verifAdvance(verifInt64("gap", 1, int64(2*time.Second)))
+	verifQuiesce()
+	if verifChoice("secondPacketFrom", 2) == 0 {
+		io.in <- zzDgram(1, "t:1", 1)
+	} else {
+		io.conns[0].replies <- zzReply{data: []byte{1}, from: "t:1"}
+	}
+	verifQuiesce()
+	last := verifNow()
+	verifAdvance(verifInt64("wait", 1, int64(12*time.Second)))
+	verifQuiesce()
+	idle := verifNow() - last
+	_, present := m.m[1]
+	if idle <= int64(zzTimeout) {
+		verifAssert(present && io.conns[0].closes == 0, "a session whose last packet is less than the idle timeout old is kept")
+		verifCover("kept")
+	}
+	if idle > int64(zzTimeout)+int64(time.Second) {
+		verifAssert(!present && io.conns[0].closes == 1, "an idle session is closed within one sweep interval after the timeout")
+		verifCover("swept")
+	}
+	close(io.in)
+	verifQuiesce()
+	<-done
+	verifAssert(m.Count() == 0 && io.conns[0].closes == 1, "at the end the session is gone and its socket closed once")
+}
